@@ -26,7 +26,11 @@ SPEC = {
 }
 
 MANIFEST = {
-    "text": ("Component level of C03, proved in Coq for all op sequences (unbounded, by induction over the run): "
+    "text": ("System level (trace-validated on real endpoints): unauthenticated garbage and structure-aware forgeries (sim_c03), 29 kinds of "
+             "illegal frame sequences from an authenticated peer with the error class RFC 9000 prescribes (sim_c03h / MonC03), and 72 "
+             "mutations of the peer's transport parameters presented to a live connection through a wrapped crypto session "
+             "(sim_c03t / MonC03T: no panic, no unbounded loop, an undecodable encoding ends exactly the victim with "
+             "TRANSPORT_PARAMETER_ERROR, every other connection completes untouched). Component level of C03, proved in Coq for all op sequences (unbounded, by induction over the run): "
              "CidQueue (remote CIDs under arbitrary NEW_CONNECTION_ID sequence/retire_prior_to: no expect/unwrap reachable, "
              "cursor slot occupied, retired ranges of length 1..LEN, active sequence number is an inserted one and not below any "
              "accepted retire_prior_to); CidState (arbitrary RETIRE_CONNECTION_ID: no panic, active_seq within issued, un-issued "
@@ -43,6 +47,5 @@ MANIFEST = {
              "correspondence through cfg-guarded hooks, with property oracles evaluated on the implementation's outputs."),
     "note": ("Trusted: Coq kernel + vm_compute; hand-written models whose agreement with the code is sampled, not proved; "
              "hook interpreters; python driver. No axioms. RetireQueue.v and FrameLegality.v have no hook: they are tied only "
-             "through CID_QUEUE_LEN / by reading until the simulator injects frames. Decoders (C10) and the simulator-level "
-             "part of C03 are not in this file."),
+             "through CID_QUEUE_LEN / by reading until the simulator injects frames. The simulator level is sampling, not proof."),
 }
